@@ -10,6 +10,8 @@ import (
 	"strings"
 	"time"
 
+	"github.com/corestario/kyber/pairing/bls12381"
+
 	"github.com/lidofinance/dc4bc/fsm/fsm"
 	"github.com/lidofinance/dc4bc/fsm/state_machines/internal"
 	"github.com/lidofinance/dc4bc/fsm/types/requests"
@@ -497,9 +499,9 @@ func vfRequest(ev string, variant int) []interface{} {
 			case 0:
 				poly = vfPolyJSON(vfPolyCommit(0), vfPolyCommit(1))
 			case 1:
-				poly = vfPolyJSON(vfPolyCommit(0), vfPolyCommit(1), vf.Bytes("poly.extra", 2))
+				poly = vfPolyJSON(vfPolyCommit(0), vfPolyCommit(1), vfPoint("poly.extra", 7))
 			case 2:
-				other := vf.Bytes("poly.other", 2)
+				other := vfPoint("poly.other", 9)
 				vf.Assume(!vf.BytesEq(other, vfPolyCommit(1)))
 				poly = vfPolyJSON(vfPolyCommit(0), other)
 			case 3:
@@ -1138,7 +1140,20 @@ func VFProject(dump []byte, n int) (VFProjection, bool) {
 }
 
 // vfPolyCommit: the k-th commitment of the polynomial the round retains (symbolic point encoding)
-func vfPolyCommit(k int) []byte { return vf.Bytes("poly.c"+strconv.Itoa(k), 2) }
+func vfPolyCommit(k int) []byte { return vfPoint("poly.c"+strconv.Itoa(k), k+2) }
+
+// vfPoint: the encoding of a curve point. Symbolic mode: two symbolic bytes that decode (the decoder's verdict is an
+// uninterpreted predicate); native mode (replays): the encoding of i*G on the real curve.
+func vfPoint(name string, i int) []byte {
+	if vf.Symbolic() {
+		b := vf.Bytes(name, 2)
+		vf.Assume(vf.UFBool("kyber.pt.decodes", b))
+		return b
+	}
+	suite := bls12381.NewBLS12381Suite(nil)
+	bz, _ := suite.Point().Mul(suite.Scalar().SetInt64(int64(i)), nil).MarshalBinary()
+	return bz
+}
 
 // vfPolyJSON: what dkg.BLSKeyring.PubPolyBytes produces for these commitments
 func vfPolyJSON(commits ...[]byte) []byte {
